@@ -40,6 +40,13 @@ def hand_written():
     tr = actor(0, [setT(1), setT(2)], on_timer=[entry(0, False, 0, [setT(1)], t=1), entry(0, True, 1, [send(1, 5)], t=2),
                                                  entry(1, True, 1, [], t=1)])
     out.append(("timer_renewal", [tr, actor(0, [], on_msg=[entry(0, True, 1, [], msg=5)])]))
+    # near-renewals: borrowed state, the fired timer re-armed together with something else
+    nr1 = actor(0, [setT(1)], on_timer=[entry(0, False, 0, [setT(1), setT(2)], t=1), entry(0, True, 1, [], t=2)])
+    out.append(("renew_plus_other_timer", [nr1, actor(0)]))
+    nr2 = actor(0, [setT(1)], on_timer=[entry(0, False, 0, [setT(1), send(1, 1)], t=1)])
+    out.append(("renew_plus_send", [nr2, actor(0, [], on_msg=[entry(0, True, 1, [], msg=1)])]))
+    nr3 = actor(0, [setT(1), setT(2)], on_timer=[entry(0, False, 0, [setT(2)], t=1), entry(0, False, 0, [setT(2), setT(2)], t=2)])
+    out.append(("renew_other", [nr3]))
     # cancel then set in one handler; set then cancel
     cs = actor(0, [setT(1)], on_msg=[entry(0, True, 1, [cancel(1), setT(1), setT(2), cancel(2)], msg=1)],
                on_timer=[entry(1, True, 2, [], t=1)])
@@ -126,8 +133,17 @@ def random_actor(rng, n, nstates=3):
                 touch = rng.random() < 0.6
                 nxt = rng.randrange(nstates) if touch else s
                 cmds = random_cmds(rng, n)
-                if rng.random() < 0.3:
-                    cmds = [setT(t)]        # renewal
+                r = rng.random()
+                if r < 0.2:
+                    cmds = [setT(t)]        # pure renewal
+                elif r < 0.45:
+                    # near-renewals: the fired timer is re-armed but something else happens too
+                    o = 3 - t
+                    cmds = rng.choice([[setT(t), setT(o)], [setT(o), setT(t)], [setT(t), setT(t)], [setT(t), cancel(t)],
+                                       [cancel(t), setT(t)], [setT(t), send(rng.randrange(n), 1)], [setT(o)],
+                                       [setT(t), choose("k1", [1])]])
+                    if rng.random() < 0.7:
+                        touch, nxt = False, s
                 on_timer.append(entry(s, touch, nxt, cmds, t=t))
         for v in (1, 2, 3):
             if rng.random() < 0.6:
